@@ -70,6 +70,7 @@ def correlation_task(datatype, norm, shape):
         dom = tc.smt()
         I = tc.interp()
         hints = {"datatype": datatype, "norm": norm, "shape": shape}
+        tc.native = ("correlation", hints)
         dt = "complex" if datatype == "complex" else "float"
 
         def thunk(I):
@@ -116,6 +117,7 @@ def xcorr_task(datatype, norm, cross, maxlags_given=True):
         dom = tc.smt()
         I = tc.interp()
         hints = {"datatype": datatype, "norm": norm, "cross": cross, "maxlags_given": maxlags_given}
+        tc.native = ("xcorr", hints)
         dt = "complex" if datatype == "complex" else "float"
 
         def thunk(I):
@@ -159,6 +161,7 @@ def corrmtx_task(datatype, method, as_list=False):
         dom = tc.smt()
         I = tc.interp()
         hints = {"datatype": datatype, "method": method}
+        tc.native = ("corrmtx", hints)
         dt = "complex" if datatype == "complex" else "float"
 
         def thunk(I):
